@@ -10,6 +10,8 @@ C2 == [name |-> "c2", dial |-> 900, rht |-> 450, ka |-> 11000, idle |-> 33000, m
 \* the ends of the value ranges: everything 0 (no timeouts, Go's defaults), keep-alive negative (probes off)
 C0 == [name |-> "c0", dial |-> 0, rht |-> 0, ka |-> 0, idle |-> 0, maxidle |-> 0]
 CN == [name |-> "cn", dial |-> 600, rht |-> 350, ka |-> 0 - 1000, idle |-> 27000, maxidle |-> 5]
+\* a response-header timeout longer than the widest slack of the time bound (1.5 s): one timeout more is outside every bound
+C3 == [name |-> "c3", dial |-> 500, rht |-> 2000, ka |-> 9000, idle |-> 25000, maxidle |-> 4]
 MCConfigs == {C1, C2, C0, CN}
 BehConfigs == {C1, C2}
 MCDelays == {"zero", "below", "above"}
@@ -47,7 +49,18 @@ BehPrint2 == \A b \in ConcCasesOf \cup ReuseCasesOf : hist = <<>> /\ PrintT(ToJs
 Beh2Init == Init /\ BehPrint2
 Beh2Spec == Beh2Init /\ [][UNCHANGED vars]_vars
 
-BehPrint == /\ \A b \in BehCases \cup SlowCases : hist = <<>> /\ PrintT(ToJson(b))
+\* a request over a connection an earlier request left in the idle pool
+ConnCases == { [c |-> C3, first |-> Zero, kind |-> k, class |-> cl, delay |-> DelayOf(cl, C3.rht),
+                out |-> Outcome(C3, DelayOf(cl, C3.rht)), req |-> r, conn |-> "reused"] :
+                k \in Kinds, cl \in {"below", "above"}, r \in {"GET", "HEAD", "POST"} }
+\* a header in time, then a body that takes b ms: delivered completely
+BodyCases == { [c |-> c, first |-> Zero, kind |-> k, class |-> "below", delay |-> DelayOf("below", c.rht),
+                out |-> Outcome(c, DelayOf("below", c.rht)), body |-> b, complete |-> Delivered(c, DelayOf("below", c.rht), b).complete] :
+                c \in BehConfigs, k \in Kinds, b \in UNION {{100, LongBody(x)} : x \in BehConfigs} }
+BodyCasesOf == { x \in BodyCases : x.body \in {100, LongBody(x.c)} }
+BehPrint == /\ \A b \in ConnCases : hist = <<>> /\ PrintT(ToJson(b))
+            /\ \A b \in BodyCasesOf : hist = <<>> /\ PrintT(ToJson(b))
+            /\ \A b \in BehCases \cup SlowCases : hist = <<>> /\ PrintT(ToJson(b))
             /\ \A b \in WrapCases : hist = <<>> /\ PrintT(ToJson(b))
 BehInit == Init /\ BehPrint
 BehSpec == BehInit /\ [][UNCHANGED vars]_vars
